@@ -256,8 +256,8 @@ func (l *listener) doExtract(kw Keyword, fnName string, list parser.IExpressionL
 	if i := kw.MsgID; i > 0 {
 		param := list.Expression(i - 1)
 		s, ok := isStringLiteral(param)
-		if !ok {
-			return // msgid 不是字符串字面量 无法抽取 (空 msgid 的条目会覆盖 POT 文件头)
+		if !ok || (s == "" && entry.MsgCtxt == "") {
+			return // msgid 不是字符串字面量 或者是无上下文的空串(gettext 保留给文件头): 不抽取 否则会覆盖 POT 文件头
 		}
 		at := param.GetStart()
 		entry.MsgID = s
